@@ -251,6 +251,7 @@ fn eval_inner(target: &str, input: &str) -> Option<String> {
         }
         "default_ns" => c10_default_ns_witness(),
         "fixed_doc" => c20_fixed_doc(input),
+        "nav_axes" => navaxes::check(input),
         "id_tables" => c08_id_tables(input),
         "node_map" => c11_node_map(input),
         "deep_equal" => deepeq::check(input),
@@ -316,6 +317,7 @@ fn inputs(target: &str, large: bool) -> Vec<String> {
             v
         }
         "ns_layout" => bounded::ns_layouts(),
+        "nav_axes" => navaxes::inputs(),
         "id_tables" => { let mut v = Vec::new(); for n in [1usize, 2, 7, 20, 41, 64, 150] { for stride in [1usize, 3, 7] { for via in ["api", "parse"] { v.push(format!("{} {} {}", n, stride, via)); } } } if large { v.push("700 11 api".into()); v.push("700 13 parse".into()); } v }
         "node_map" => {
             let ops = ['i', 'r', 'u', 'n', 'm', 'o', 'c', 'e'];
@@ -1532,6 +1534,174 @@ fn c11_node_map(input: &str) -> Option<String> {
         if s != wants { return Some(format!("{}: serialised as {:?}, reference order gives {:?}", here, s, wants)); }
     }
     None
+}
+
+// (C07) every traversal entry point against what follows from the parent / child structure of a tree that is
+// built node by node (so the structure is known independently of any navigation call)
+#[allow(dead_code)]
+mod navaxes {
+    use xot::{Axis, Node, NodeEdge, Xot};
+    /// no tree here has more than 20 nodes: an iterator that yields this many items does not terminate
+    const LIMIT: usize = 500;
+
+    pub struct T { pub kind: Vec<char>, pub parent: Vec<Option<usize>>, pub kids: Vec<Vec<usize>>, pub h: Vec<Node> }
+
+    /// spec: D / E<ns count><attr count> / T / C / P, children in parentheses: "D(E21(TE00(CP)E01()T))"
+    pub fn build(spec: &str, xot: &mut Xot) -> Option<T> {
+        let cs: Vec<char> = spec.chars().collect();
+        let mut t = T { kind: vec![], parent: vec![], kids: vec![], h: vec![] };
+        let mut stack: Vec<usize> = Vec::new();
+        let mut i = 0;
+        let mut last: Option<usize> = None;
+        let mut counter = 0;
+        let mut add = |t: &mut T, xot: &mut Xot, k: char, parent: Option<usize>| -> usize {
+            counter += 1;
+            let h = match k {
+                'D' => xot.new_document(), 'E' => { let n = xot.add_name(&format!("e{}", counter)); xot.new_element(n) }
+                'T' => xot.new_text(&format!("t{}", counter)), 'C' => xot.new_comment(&format!("c{}", counter)),
+                'P' => { let n = xot.add_name(&format!("p{}", counter)); xot.new_processing_instruction(n, None) }
+                'N' => { let p = xot.add_prefix(&format!("n{}", counter)); let u = xot.add_namespace(&format!("urn:{}", counter)); xot.new_namespace_node(p, u) }
+                _ => { let n = xot.add_name(&format!("a{}", counter)); xot.new_attribute_node(n, "v".to_string()) }
+            };
+            let id = t.kind.len();
+            t.kind.push(k); t.parent.push(parent); t.kids.push(vec![]); t.h.push(h);
+            if let Some(p) = parent { t.kids[p].push(id); xot.any_append(t.h[p], h).unwrap(); }
+            id
+        };
+        while i < cs.len() {
+            match cs[i] {
+                '(' => { stack.push(last?); i += 1; }
+                ')' => { stack.pop()?; i += 1; }
+                'E' => { let (n, a) = (cs.get(i + 1)?.to_digit(10)?, cs.get(i + 2)?.to_digit(10)?);
+                    let e = add(&mut t, xot, 'E', stack.last().copied());
+                    for _ in 0..n { add(&mut t, xot, 'N', Some(e)); }
+                    for _ in 0..a { add(&mut t, xot, 'A', Some(e)); }
+                    last = Some(e); i += 3; }
+                k @ ('D' | 'T' | 'C' | 'P') => { last = Some(add(&mut t, xot, k, stack.last().copied())); i += 1; }
+                _ => return None,
+            }
+        }
+        Some(t)
+    }
+
+    impl T {
+        fn normal(&self, n: usize) -> bool { self.kind[n] != 'N' && self.kind[n] != 'A' }
+        fn nk(&self, n: usize) -> Vec<usize> { self.kids[n].iter().copied().filter(|k| self.normal(*k)).collect() }
+        fn root(&self, mut n: usize) -> usize { while let Some(p) = self.parent[n] { n = p; } n }
+        fn anc(&self, n: usize) -> Vec<usize> { let mut v = vec![]; let mut c = self.parent[n]; while let Some(p) = c { v.push(p); c = self.parent[p]; } v }
+        fn desc(&self, n: usize, all: bool, out: &mut Vec<usize>) { for k in if all { self.kids[n].clone() } else { self.nk(n) } { out.push(k); self.desc(k, all, out); } }
+        fn order(&self, n: usize, all: bool) -> Vec<usize> { let mut v = vec![self.root(n)]; self.desc(self.root(n), all, &mut v); v }
+        fn same_kind_sibs(&self, n: usize) -> Vec<usize> { match self.parent[n] { Some(p) => self.kids[p].iter().copied().filter(|k| (self.kind[*k] == 'N') == (self.kind[n] == 'N') && (self.kind[*k] == 'A') == (self.kind[n] == 'A')).collect(), None => vec![n] } }
+        /// following in document order without descendants (for an attribute / namespace node: everything after it,
+        /// i.e. the content of its element and what follows the element)
+        fn following(&self, n: usize, all: bool) -> Vec<usize> {
+            let ord = self.order(n, true);
+            let mut d = vec![]; self.desc(n, true, &mut d);
+            let i = ord.iter().position(|x| *x == n).unwrap();
+            ord[i + 1..].iter().copied().filter(|x| !d.contains(x) && (all || self.normal(*x))).collect()
+        }
+        fn preceding(&self, n: usize) -> Vec<usize> {
+            let ord = self.order(n, true);
+            let an = self.anc(n);
+            let i = ord.iter().position(|x| *x == n).unwrap();
+            let mut v: Vec<usize> = ord[..i].iter().copied().filter(|x| !an.contains(x) && self.normal(*x)).collect();
+            v.reverse(); v
+        }
+    }
+
+    pub fn specs() -> Vec<&'static str> {
+        vec!["D(E00)", "D(E21(TE00(CP)E01()T))", "D(CE11(E00(E00(E00(T))))P)", "E12(E00E10E01E00TCP)", "E00(E00(E00(E00(E00))))", "T", "D(E22(E22(T)E22)C)", "E20", "D(PE00(TCT)C)", "E01(E01(E01)E01(T))"]
+    }
+
+    pub fn check(input: &str) -> Option<String> {
+        let (si, ni) = input.split_once(' ')?;
+        let spec = specs().get(si.parse::<usize>().ok()?).copied()?;
+        let mut xot = Xot::new();
+        xot.set_text_consolidation(false);
+        let t = build(spec, &mut xot)?;
+        let n: usize = ni.parse().ok()?;
+        if n >= t.kind.len() { return None; }
+        let h = |v: Vec<usize>| -> Vec<Node> { v.into_iter().map(|i| t.h[i]).collect() };
+        let name = |v: &Vec<Node>| -> String { format!("{:?}", v.iter().map(|x| t.h.iter().position(|y| y == x).map(|i| i as i64).unwrap_or(-1)).collect::<Vec<_>>()) };
+        let nd = t.h[n];
+        let mut checks: Vec<(&str, Vec<Node>, Vec<Node>)> = Vec::new();
+        let nk = t.nk(n);
+        let sibs = t.same_kind_sibs(n);
+        let pos = sibs.iter().position(|x| *x == n).unwrap();
+        let mut desc = vec![]; t.desc(n, false, &mut desc);
+        let mut alldesc = vec![]; t.desc(n, true, &mut alldesc);
+        let anc = t.anc(n);
+        checks.push(("parent", xot.parent(nd).into_iter().take(LIMIT).collect(), h(t.parent[n].into_iter().collect())));
+        checks.push(("first_child", xot.first_child(nd).into_iter().take(LIMIT).collect(), h(nk.first().copied().into_iter().collect())));
+        checks.push(("last_child", xot.last_child(nd).into_iter().take(LIMIT).collect(), h(nk.last().copied().into_iter().collect())));
+        checks.push(("next_sibling", xot.next_sibling(nd).into_iter().take(LIMIT).collect(), h(sibs.get(pos + 1).copied().into_iter().collect())));
+        checks.push(("previous_sibling", xot.previous_sibling(nd).into_iter().take(LIMIT).collect(), h(if pos > 0 { vec![sibs[pos - 1]] } else { vec![] })));
+        checks.push(("children", xot.children(nd).take(LIMIT).collect(), h(nk.clone())));
+        checks.push(("reverse_children", xot.reverse_children(nd).take(LIMIT).collect(), h(nk.iter().rev().copied().collect())));
+        checks.push(("following_siblings", xot.following_siblings(nd).take(LIMIT).collect(), h(sibs[pos..].to_vec())));
+        checks.push(("preceding_siblings", xot.preceding_siblings(nd).take(LIMIT).collect(), h(sibs[..=pos].iter().rev().copied().collect())));
+        checks.push(("ancestors", xot.ancestors(nd).take(LIMIT).collect(), h(std::iter::once(n).chain(anc.iter().copied()).collect())));
+        checks.push(("descendants", xot.descendants(nd).take(LIMIT).collect(), h(if t.normal(n) { std::iter::once(n).chain(desc.iter().copied()).collect() } else { vec![] })));
+        checks.push(("all_descendants", xot.all_descendants(nd).take(LIMIT).collect(), h(std::iter::once(n).chain(alldesc.iter().copied()).collect())));
+        checks.push(("following", xot.following(nd).take(LIMIT).collect(), h(t.following(n, false))));
+        checks.push(("all_following", xot.all_following(nd).take(LIMIT).collect(), h(t.following(n, true))));
+        checks.push(("preceding", xot.preceding(nd).take(LIMIT).collect(), h(t.preceding(n))));
+        checks.push(("root", vec![xot.root(nd)], h(vec![t.root(n)])));
+        checks.push(("attribute_nodes", xot.attribute_nodes(nd).take(LIMIT).collect(), h(t.kids[n].iter().copied().filter(|k| t.kind[*k] == 'A').collect())));
+        checks.push(("axis child", xot.axis(Axis::Child, nd).take(LIMIT).collect(), h(nk.clone())));
+        checks.push(("axis descendant", xot.axis(Axis::Descendant, nd).take(LIMIT).collect(), h(desc.clone())));
+        checks.push(("axis descendant-or-self", xot.axis(Axis::DescendantOrSelf, nd).take(LIMIT).collect(), h(if t.normal(n) { std::iter::once(n).chain(desc.iter().copied()).collect() } else { vec![] })));
+        checks.push(("axis parent", xot.axis(Axis::Parent, nd).take(LIMIT).collect(), h(t.parent[n].into_iter().collect())));
+        checks.push(("axis ancestor", xot.axis(Axis::Ancestor, nd).take(LIMIT).collect(), h(anc.clone())));
+        checks.push(("axis ancestor-or-self", xot.axis(Axis::AncestorOrSelf, nd).take(LIMIT).collect(), h(std::iter::once(n).chain(anc.iter().copied()).collect())));
+        checks.push(("axis following-sibling", xot.axis(Axis::FollowingSibling, nd).take(LIMIT).collect(), h(sibs[pos + 1..].to_vec())));
+        checks.push(("axis preceding-sibling", xot.axis(Axis::PrecedingSibling, nd).take(LIMIT).collect(), h(sibs[..pos].iter().rev().copied().collect())));
+        checks.push(("axis following", xot.axis(Axis::Following, nd).take(LIMIT).collect(), h(t.following(n, false))));
+        checks.push(("axis preceding", xot.axis(Axis::Preceding, nd).take(LIMIT).collect(), h(t.preceding(n))));
+        checks.push(("axis attribute", xot.axis(Axis::Attribute, nd).take(LIMIT).collect(), h(t.kids[n].iter().copied().filter(|k| t.kind[*k] == 'A').collect())));
+        checks.push(("axis self", xot.axis(Axis::Self_, nd).take(LIMIT).collect(), h(vec![n])));
+        // traverse: Start / End edges of the subtree in document order; reverse_traverse the mirror image
+        fn edges(t: &T, n: usize, all: bool, out: &mut Vec<(bool, usize)>) { out.push((true, n)); for k in if all { t.kids[n].clone() } else { t.nk(n) } { edges(t, k, all, out); } out.push((false, n)); }
+        let show = |v: Vec<NodeEdge>| -> Vec<(bool, i64)> { v.into_iter().map(|e| match e { NodeEdge::Start(x) => (true, t.h.iter().position(|y| *y == x).map(|i| i as i64).unwrap_or(-1)), NodeEdge::End(x) => (false, t.h.iter().position(|y| *y == x).map(|i| i as i64).unwrap_or(-1)) }).collect() };
+        for (label, got, all, rev) in [("traverse", xot.traverse(nd).take(LIMIT).collect::<Vec<_>>(), false, false), ("all_traverse", xot.all_traverse(nd).take(LIMIT).collect(), true, false),
+                                       ("reverse_traverse", xot.reverse_traverse(nd).take(LIMIT).collect(), false, true), ("reverse_all_traverse", xot.reverse_all_traverse(nd).take(LIMIT).collect(), true, true)] {
+            let mut want = vec![]; edges(&t, n, all, &mut want);
+            if !t.normal(n) && !all { want = vec![]; }
+            let mut want: Vec<(bool, i64)> = want.into_iter().map(|(s, i)| (s, i as i64)).collect();
+            if rev { want.reverse(); }
+            let got = show(got);
+            if got.len() >= LIMIT { return Some(format!("{} node {}: {} does not terminate", spec, n, label)); }
+            if got != want { return Some(format!("{} node {}: {} gives {:?}, the structure gives {:?}", spec, n, label, got, want)); }
+        }
+        {   // reverse_preorder: the node, then every ordinary node before it in document order, back to the root
+            let ord = t.order(n, false);
+            let want: Vec<usize> = match ord.iter().position(|x| *x == n) { Some(i) => ord[..=i].iter().rev().copied().collect(),
+                None => { let e = t.parent[n].unwrap(); let i = ord.iter().position(|x| *x == e).unwrap(); ord[..=i].iter().rev().copied().collect() } };
+            let got: Vec<Node> = xot.reverse_preorder(nd).take(LIMIT).collect();
+            // for an attribute / namespace node: what precedes it are its element and everything before that
+            checks.push(("reverse_preorder", got, h(want)));
+        }
+        if let Some(p) = t.parent[n] { let want = t.nk(p).iter().position(|x| *x == n); if xot.child_index(t.h[p], nd) != want { return Some(format!("{} node {}: child_index {:?}, expected {:?}", spec, n, xot.child_index(t.h[p], nd), want)); } }
+        for (label, got, want) in checks {
+            if got.len() >= LIMIT { return Some(format!("{} node {}: {} does not terminate", spec, n, label)); }
+            if got != want { return Some(format!("{} node {}: {} gives {}, the structure gives {}", spec, n, label, name(&got), name(&want))); }
+        }
+        // partition of the ordinary nodes of the tree
+        let mut parts: Vec<Node> = xot.axis(Axis::Ancestor, nd).chain(xot.axis(Axis::Descendant, nd)).chain(xot.preceding(nd)).chain(xot.following(nd)).take(LIMIT).collect();
+        if t.normal(n) { parts.push(nd); }
+        let idx = |x: &Node| t.h.iter().position(|y| y == x).map(|i| i as i64).unwrap_or(-1);
+        let mut parts: Vec<i64> = parts.iter().map(idx).collect();
+        let mut all: Vec<i64> = t.order(n, false).into_iter().map(|i| i as i64).collect();
+        let l = parts.len(); parts.sort(); parts.dedup(); all.sort();
+        if parts.len() != l || parts != all { return Some(format!("{} node {}: ancestors, descendants, preceding, following and self do not partition the ordinary nodes of the tree", spec, n)); }
+        None
+    }
+
+    pub fn inputs() -> Vec<String> {
+        let mut v = Vec::new();
+        for (i, s) in specs().iter().enumerate() { let mut xot = Xot::new(); let n = build(s, &mut xot).map(|t| t.kind.len()).unwrap_or(0); for k in 0..n { v.push(format!("{} {}", i, k)); } }
+        v
+    }
 }
 
 // (C09) scope queries against nearest-declaration-wins, computed independently from the declarations on the path
